@@ -31,6 +31,7 @@ def soup_cases(ctx, n, prefix="s"):
                                                                {"sec_colon_required": True}, {"sec_colon_cautious": True},
                                                                {"layout": ctx.rng.choice(soup.LAYOUTS)},
                                                                {"parse_qq": True, "clean_qq": True, "qq_depth": 2},
+                                                               {"parse_qq": True, "qq_depth": 0}, {"parse_qq": True, "qq_depth_max": 0},
                                                                {"ocr_scrub": True, "default_ns": "s", "default_ew": "e"}])}})
         elif r < 0.87:
             comp = lambda: ctx.rng.choice([154, 97, 14, 0, "154n", "97w", "14", "154", "", None, "XXXz", "___z", "l5S", "TI"])  # noqa
@@ -45,6 +46,7 @@ def soup_cases(ctx, n, prefix="s"):
                           "args": {"text": text, "config": soup.rand_config(ctx.rng, for_tract=True),
                                    "entry": ctx.rng.choice(["tract_init", "tract_parse"]),
                                    "parse_kw": ctx.rng.choice([{}, {"clean_qq": True}, {"qq_depth_min": 1, "qq_depth_max": 3},
+                                                               {"qq_depth": 0}, {"qq_depth_min": 0, "qq_depth_max": 0}, {"qq_depth_max": 0},
                                                                {"break_halves": True, "suppress_lot_divs": True}])}})
     return cases
 
